@@ -18,12 +18,12 @@ func init() {
 		e.natives["github.com/scionproto/scion/pkg/log.Root"] = e.natives["github.com/scionproto/scion/pkg/log.FromCtx"]
 		// math/rand/v2.IntN(n): nondeterministic value in [0, n)
 		intn := func(x *Exec, fr *frame, a []Value) Value {
-			n := x.goInt(a[0], "rand.IntN bound")
-			if n <= 0 {
+			n := x.toTerm(a[0], 64)
+			if x.truth(fromTerm(x.st.Cmp(OpSle, n, x.st.Const(64, 0)))) {
 				x.tpanic("invalid argument to IntN")
 			}
 			t := x.nondet("rand.IntN", 64, "u64")
-			x.addPC(x.st.Cmp(OpUlt, t, x.st.Const(64, uint64(n))))
+			x.addPC(x.st.Cmp(OpUlt, t, n))
 			return t
 		}
 		e.natives["math/rand/v2.IntN"] = intn
